@@ -170,6 +170,41 @@ def host_one_outstanding(order: int, kind1: int, kind2: int, kind3: int, callers
         return True
 
 
+@harness(pre=['0 <= late <= 2 and 0 <= n <= 1'], family='host-serialisation', kernels=K_HOST, timeout=(60, 200),
+         bounds='a command times out (response_timeout) and its answer arrives late (0, 1 or 2 stray answers, symbolic); then two callers issue commands concurrently: still at most one command at the controller, each caller gets its own answer')
+def host_late_answer_after_timeout(late: int, n: int) -> bool:
+    late, n = C(late, 0, 2), C(n, 0, 1)
+    with detloop.running() as loop:
+        with untraced():
+            h = bhost.Host()
+            h.ready = True
+            sink = _CtlSink()
+            h.set_packet_sink(sink)
+        t0 = loop.create_task(h.send_command(_CMDS[0](), response_timeout=1.0))
+        loop.run_ready()
+        if len(sink.cmds) != 1:
+            return False
+        loop.advance()                  # the response timeout fires
+        loop.run_ready()
+        if not t0.done() or t0.exception() is None:
+            return False
+        for _ in range(late):
+            h.on_packet(_cc(_CMDS[0].op_code, 1) if n == 0 else _cs(_CMDS[0].op_code, 1))
+            loop.run_ready()
+        t1 = loop.create_task(h.send_command(_CMDS[1]()))
+        t2 = loop.create_task(h.send_command(_CMDS[2]()))
+        loop.run_ready()
+        if len(sink.cmds) != 2:
+            return False                # both went out at once, or none
+        h.on_packet(_cc(_CMDS[1].op_code))
+        loop.run_ready()
+        if len(sink.cmds) != 3 or not t1.done() or t1.exception() is not None or t1.result().command_opcode != _CMDS[1].op_code:
+            return False
+        h.on_packet(_cc(_CMDS[2].op_code))
+        loop.run_ready()
+        return t2.done() and t2.exception() is None and t2.result().command_opcode != 0 and t2.result().command_opcode == _CMDS[2].op_code
+
+
 # ------------------------------------------------------------------------------------------
 # procedures: PENDING is followed by the completion event
 def _events(sink, cls):
